@@ -34,8 +34,8 @@ class Budget(BaseException):
 
 
 # --------------------------------------------------------------------------------------
-class SimModel(SquareDomainOrthogonalFractures, pp.SinglePhaseFlow):
-    """Small nonlinear, time-dependent model; every override is a seam, not physics."""
+class Seams:
+    """Every override is a seam or an input knob, not physics; shared by all model families."""
 
     _sim: "DriverSim"
 
@@ -45,6 +45,24 @@ class SimModel(SquareDomainOrthogonalFractures, pp.SinglePhaseFlow):
         sides = self.domain_boundary_sides(bg)
         vals[sides.west] = 1.0 + self._sim.bc_rate * self.time_manager.time
         return vals
+
+    def bc_values_temperature(self, bg):
+        vals = np.zeros(bg.num_cells)
+        sides = self.domain_boundary_sides(bg)
+        vals[sides.south] = 0.5 + 0.25 * self._sim.bc_rate * self.time_manager.time
+        return vals
+
+    def bc_type_mechanics(self, sd):
+        sides = self.domain_boundary_sides(sd)
+        return pp.BoundaryConditionVectorial(sd, sides.south + sides.north, "dir")
+
+    def bc_values_displacement(self, bg):
+        vals = np.zeros((self.nd, bg.num_cells))
+        sides = self.domain_boundary_sides(bg)
+        t = self.time_manager.time
+        vals[1, sides.north] = -0.005 * self._sim.bc_rate * t
+        vals[0, sides.north] = 0.0025 * self._sim.bc_rate * t
+        return vals.ravel("F")
 
     # --- seams ----------------------------------------------------------------------
     @property
@@ -67,6 +85,28 @@ class SimModel(SquareDomainOrthogonalFractures, pp.SinglePhaseFlow):
         self._sim.on_save(self, super().save_data_time_step)
 
 
+FAMILIES = {
+    "flow": lambda: pp.SinglePhaseFlow,
+    "energy": lambda: pp.MassAndEnergyBalance,
+    "mech": lambda: pp.MomentumBalance,
+    "poro": lambda: pp.Poromechanics,
+}
+# admissible (fracture set, cell size) pairs per family, found by probing: configurations for which the unfaulted model
+# solves (mechanics with the through-going fracture at x = 0.5 and two cells per direction is singular)
+FAMILY_GEOMETRY = {
+    "energy": [([0], 0.5), ([], 0.5), ([1], 0.5), ([0, 1], 0.5), ([], 1.0)],
+    "mech": [([1], 0.5), ([0], 0.25), ([1], 0.25)],  # without fractures the momentum balance is a *linear* problem: a failed solve raises by design
+    "poro": [([1], 0.5), ([], 0.5), ([1], 0.25)],
+}
+_CLASSES: dict = {}
+
+
+def model_class(family: str):
+    if family not in _CLASSES:
+        _CLASSES[family] = type(f"SimModel_{family}", (Seams, SquareDomainOrthogonalFractures, FAMILIES[family]()), {})
+    return _CLASSES[family]
+
+
 class ObservingNewton(pp.NewtonSolver):
     """params['nonlinear_solver'] seam: observation points around the real solve."""
 
@@ -84,7 +124,9 @@ class ObservingNewton(pp.NewtonSolver):
 
 # --------------------------------------------------------------------------------------
 class DriverSim:
-    def __init__(self, ch, tr: Trace, owner: str, export: bool = False):
+    def __init__(self, ch, tr: Trace, owner: str, export: bool = False, families=("flow",)):
+        self.families = tuple(families)
+        self.family = self.families[0]
         self.ch = ch
         self.tr = tr
         self.owner = owner
@@ -105,9 +147,13 @@ class DriverSim:
     def configure(self):
         ch = self.ch
         with ch.span("config"):
+            if len(self.families) > 1:
+                self.family = ch.choice(list(self.families))
             self.fracs = ch.choice([[0], [], [1], [0, 1]])
             # Cartesian grids must conform to the fractures at x, y = 0.5: an even number of cells per direction
             self.cell_size = ch.choice([0.5, 0.25]) if self.fracs else ch.choice([0.5, 1.0, 0.34])
+            if self.family != "flow":
+                self.fracs, self.cell_size = ch.choice(FAMILY_GEOMETRY[self.family])
             self.ts_depth = ch.choice([1, 2, 3])
             self.it_depth = ch.choice([1, 2, 3])
             self.bc_rate = ch.choice([2.0, 0.5, 8.0])
@@ -124,6 +170,8 @@ class DriverSim:
             lo = dt_init / ch.choice([4, 2, 8, 3])
             hi = dt_init * ch.choice([2, 1, 4])
             self.max_iter = ch.rng(5, 10)
+            if self.family in ("mech", "poro"):
+                self.max_iter += 6  # contact mechanics needs 6-13 iterations per step without any fault
             iter_max = self.max_iter + ch.rng(0, 2)
             hi_opt = ch.rng(1, iter_max)
             lo_opt = ch.rng(1, hi_opt)
@@ -139,7 +187,7 @@ class DriverSim:
             self.p_fail = ch.choice([0, 1, 3, 6])  # /10
             self.horizon = ch.choice([MAX_ATTEMPTS, 4, 10, 25])
             self.aim = ch.flag()
-        self.tr.emit("config", {"cell": self.cell_size, "fracs": self.fracs, "ts_depth": self.ts_depth, "it_depth": self.it_depth,
+        self.tr.emit("config", {"family": self.family, "cell": self.cell_size, "fracs": self.fracs, "ts_depth": self.ts_depth, "it_depth": self.it_depth,
                                 "tm": {k: (list(v) if isinstance(v, (list, tuple)) else v) for k, v in self.tm_kw.items()},
                                 "max_iter": self.max_iter, "div_tol": float(self.div_tol), "kinds": self.kinds, "p_fail": self.p_fail,
                                 "horizon": self.horizon, "export": self.export})
@@ -158,7 +206,7 @@ class DriverSim:
         }
         if restart_options is not None:
             params["restart_options"] = restart_options
-        model = SimModel(params)
+        model = model_class(self.family)(params)
         model._sim = self
         self.params = params
         return model
@@ -375,9 +423,9 @@ PROBES = ["fault_at_newton_iteration_1", "failure_right_after_failure", "failure
           "step_back_S5", "run_reached_final_time", "attempt_cap_reached", "config_rejected"]
 
 
-def make_run(owner: str):
+def make_run(owner: str, families=("flow",)):
     def run(ch, tr: Trace) -> None:
-        sim = DriverSim(ch, tr, owner, export=False)
+        sim = DriverSim(ch, tr, owner, export=False, families=families)
         sim.configure()
         model = sim.build()
         if model is None:
@@ -428,6 +476,11 @@ def run_model_loop(sim: DriverSim, model) -> None:
     def c10_end():
         if not tm.final_time_reached():
             sim._v("C10", "run_ends_at_final_time", f"the time loop returned at t={tm.time!r} before the final time {tm.time_final!r}")
+        # "The run ends at the final time": the last accepted solution belongs to time_final (stated by C10 itself; where
+        # the clock is in between remains C09's)
+        t_last = sim.accepted[-1][0]
+        if not c09.close(tm, t_last, float(tm.time_final)):
+            sim._v("C10", "run_ends_at_final_time", f"the run ended with the last accepted solution at t={t_last!r}, final time {float(tm.time_final)!r}", "last_accepted_not_at_final_time")
     sim.guard("C10", c10_end)
     sim._guard_history(model, "at the end of the run")
     sim.guard("C09", lambda: sim.clock.end())
